@@ -95,7 +95,7 @@ def main(path, limit=20):
             issue = "spec wf, expat rejects: " + err
         elif not c["wf"] and nodes is not None:
             issue = "spec ill-formed %s, expat accepts" % c["viol"]
-        elif c["wf"]:
+        elif c["wf"] and c.get("inprofile", True):
             # expat reports DTD-internal PIs/comments through the same handlers; drop them
             sv = spec_view(c["tree"])
             ev = nodes
